@@ -69,8 +69,9 @@ Theorem c01_registry_empties : forall tk b ops dl dk n evs s,
 Proof. exact registry_empties. Qed.
 Print Assumptions c01_registry_empties.
 
-(** with pairwise distinct op ids (C17) a request in flight is registered under its own op id and
-    nobody else's frame can reach its channel; one that is not in flight is not registered *)
+(** with pairwise distinct op ids (C17) a request in flight (whose op id is well-formed, i.e. not
+    negative in the model) is registered under its own op id and nobody else's frame can reach its
+    channel; one that is not in flight, or whose op id is malformed, is not registered *)
 Theorem c01_registered_iff_in_flight : forall tk b ops dl dk n evs s,
   distinct_ops ops n -> run tk b (initd ops dl dk n) evs = Some s -> reg_ok ops n s.
 Proof. exact run_reg_ok. Qed.
